@@ -205,6 +205,12 @@ func Build(r *vf.Rand, k Kind, o Opts) (*Built, error) {
 		}
 		skip := uint16(r.Pick(0, 0, 1, 3, int(size)/2))
 		maxN := uint16(r.Pick(0, 0, 1, 2, 5))
+		if maxN > 0 && size > 1024 {
+			// the per-tick pruning of the limit counters is quadratic in the missing set
+			// (seconds of CPU per tick at 30 000 missing numbers): keep limited mode small here,
+			// C03 covers large windows with limits on its own terms
+			size = 1024
+		}
 		b.Interval = pickInterval(r, o, 100*time.Millisecond, 20*time.Millisecond, time.Second)
 		b.NackSize = size
 		b.Desc = fmt.Sprintf("nack-generator(size=%d,skip=%d,max=%d,int=%v)", size, skip, maxN, b.Interval)
